@@ -699,6 +699,113 @@ impl HItem for AA {
     }
 }
 
+// ---- flip-a-range / count-ones with a zero-sized (`FlipZ`) and a one-byte (`FlipB`) modifier ----
+
+fn flip_val<T>(tok: &str, mk: fn(i64, bool) -> T, plain: fn(i64) -> T) -> Option<T> {
+    match tok.split_once('@') {
+        None => match tok {
+            "0" | "1" => Some(plain(tok.parse().ok()?)),
+            _ => None,
+        },
+        Some((v, m)) => match (v, m) {
+            ("0" | "1", "0" | "1") => Some(mk(v.parse().ok()?, m == "1")),
+            _ => None,
+        },
+    }
+}
+fn gen_flip_val(rng: &mut SplitMix64) -> String {
+    let b = rng.below(2);
+    if rng.chance(1, 6) {
+        format!("{}@{}", b, rng.below(2))
+    } else {
+        b.to_string()
+    }
+}
+fn flip_pred(toks: &[&str]) -> Option<Pred<(i64, i64)>> {
+    if let Some(c) = int_tok(toks, "ge") {
+        return Some(Box::new(move |x: &(i64, i64)| x.0 >= c));
+    }
+    if let Some(c) = int_tok(toks, "zeros") {
+        return Some(Box::new(move |x: &(i64, i64)| x.1 - x.0 >= c));
+    }
+    if let Some(c) = int_tok(toks, "len") {
+        return Some(Box::new(move |x: &(i64, i64)| x.1 >= c));
+    }
+    pred_const(toks)
+}
+fn gen_flip_pred(rng: &mut SplitMix64, aggs: &[(i64, i64)]) -> String {
+    pick_const(rng).unwrap_or_else(|| {
+        let a = *rng.pick(aggs);
+        match rng.below(5) {
+            0 => format!("len {}", rng.range_i64(1, aggs.len() as i64 + 1)),
+            1 | 2 => format!("ge {}", (a.0 + rng.range_i64(-1, 1)).max(0)),
+            _ => format!("zeros {}", (a.1 - a.0 + rng.range_i64(-1, 1)).max(0)),
+        }
+    })
+}
+
+macro_rules! flip_hitem {
+    ($name:ident, $m:ty, $parse_mod:expr, $gen_mod:expr, $is_flip:expr) => {
+        impl HItem for $name {
+            type M = $m;
+            /// (ones, number of elements)
+            type O = (i64, i64);
+            fn parse_val(tok: &str) -> Option<Self> {
+                flip_val(tok, |b, fl| $name { ones: b, len: 1, fl }, $name::from)
+            }
+            fn parse_mod(toks: &[&str]) -> Option<$m> {
+                let f: fn(&[&str]) -> Option<$m> = $parse_mod;
+                f(toks)
+            }
+            fn obs(&self) -> (i64, i64) {
+                (self.ones, self.len)
+            }
+            fn o_dflt() -> (i64, i64) {
+                (0, 0)
+            }
+            fn o_op(a: &(i64, i64), b: &(i64, i64)) -> (i64, i64) {
+                (a.0 + b.0, a.1 + b.1)
+            }
+            fn o_act(m: &$m, a: &(i64, i64)) -> (i64, i64) {
+                let is_flip: fn(&$m) -> bool = $is_flip;
+                if is_flip(m) {
+                    (a.1 - a.0, a.1)
+                } else {
+                    *a
+                }
+            }
+            fn o_view(o: &(i64, i64)) -> String {
+                format!("({},{})", o.0, o.1)
+            }
+            fn parse_pred(toks: &[&str]) -> Option<Pred<(i64, i64)>> {
+                flip_pred(toks)
+            }
+            fn gen_val(rng: &mut SplitMix64, _st: &Style) -> String {
+                gen_flip_val(rng)
+            }
+            fn gen_mod(rng: &mut SplitMix64, _st: &Style) -> String {
+                let f: fn(&mut SplitMix64) -> String = $gen_mod;
+                f(rng)
+            }
+            fn mod_identity(m: &$m) -> bool {
+                let is_flip: fn(&$m) -> bool = $is_flip;
+                !is_flip(m)
+            }
+            fn gen_pred(rng: &mut SplitMix64, aggs: &[(i64, i64)], _e: &[(i64, i64)], _rev: bool) -> String {
+                gen_flip_pred(rng, aggs)
+            }
+        }
+    };
+}
+flip_hitem!(FlipZ, (), |toks| if toks == ["u"] { Some(()) } else { None }, |_| "u".to_string(), |_| true);
+flip_hitem!(
+    FlipB,
+    u8,
+    |toks| if toks.len() == 1 { toks[0].parse::<u8>().ok() } else { None },
+    |rng| (if rng.chance(3, 4) { 1 + 2 * rng.below(128) } else { 2 * rng.below(128) }).to_string(),
+    |m| m & 1 == 1
+);
+
 impl HItem for StrCat {
     type M = (u64, u64);
     type O = String;
@@ -1000,6 +1107,8 @@ macro_rules! dispatch {
             "aff" => Some($f::<AffHash>($($arg),*)),
             "aa" => Some($f::<AA>($($arg),*)),
             "str" => Some($f::<StrCat>($($arg),*)),
+            "flipz" => Some($f::<FlipZ>($($arg),*)),
+            "flipb" => Some($f::<FlipB>($($arg),*)),
             _ => None,
         }
     };
@@ -1263,7 +1372,8 @@ fn gen_history<T: HItem>(name: &str, rng: &mut SplitMix64, focus: &str, st: &mut
     line
 }
 
-const ITEMS: [&str; 11] = ["min", "max", "sum", "minadd", "maxadd", "sumadd", "mm", "smm", "aff", "aa", "str"];
+const ITEMS: [&str; 13] =
+    ["min", "max", "sum", "minadd", "maxadd", "sumadd", "mm", "smm", "aff", "aa", "str", "flipz", "flipb"];
 
 fn gen_one(item: &str, rng: &mut SplitMix64, focus: &str, st: &mut Stats, big: bool) -> String {
     dispatch!(item, gen_history, item, rng, focus, st, big).expect("unknown item")
@@ -1301,6 +1411,9 @@ fn alphabet(item: &str, n: usize, searches: bool) -> Vec<String> {
     // flips inside the array, and (aff) the always-false one
     let (vals, mods, pf, pr): (&[&str], &[&str], &[&str], &[&str]) = if item == "aff" {
         (&["7"], &["2 1", "0 5"], &["T", "npre 1,7", "F"], &["T", "nsuf 7,2"])
+    } else if item == "flipz" {
+        // lazy item with the zero-sized modifier `()`
+        (&["1"], &["u"], &["ge 2", "zeros 1"], &["ge 1", "zeros 2"])
     } else {
         (&["c"], &["0 1", "1 4"], &["slen 2", "npre ac"], &["slen 2", "nsuf cb"])
     };
@@ -1337,9 +1450,13 @@ fn gen(args: &Args, emit: &mut dyn FnMut(String), st: &mut Stats) {
     let mut rng = SplitMix64::new(args.seed ^ if focus == "C02" { 0xC02 } else { 0xC01 });
     // (1) exhaustive small scope on the two non-commutative items with a two-element modifier alphabet
     //     (non-commuting modifiers): every interleaving of push / merge on tiny trees
-    for item in ["aff", "str"] {
+    for item in ["aff", "str", "flipz"] {
         let init = |n: usize| -> String {
-            let v: Vec<&str> = if item == "aff" { vec!["1", "2", "3", "4"] } else { vec!["a", "b", "ab", "d"] };
+            let v: Vec<&str> = match item {
+                "aff" => vec!["1", "2", "3", "4"],
+                "str" => vec!["a", "b", "ab", "d"],
+                _ => vec!["1", "0", "0", "1"],
+            };
             format!("{} slice {} {}", item, n, v[..n].join(" "))
         };
         let searches = focus == "C02";
@@ -1382,7 +1499,7 @@ fn gen(args: &Args, emit: &mut dyn FnMut(String), st: &mut Stats) {
     };
     for c in 0..count {
         // the lazy and the non-commutative items get more weight
-        let item = match rng.below(18) {
+        let item = match rng.below(21) {
             0 => "min",
             1 => "max",
             2 => "sum",
@@ -1393,7 +1510,9 @@ fn gen(args: &Args, emit: &mut dyn FnMut(String), st: &mut Stats) {
             10 => "smm",
             11 | 12 | 13 => "aff",
             14 | 15 => "aa",
-            _ => "str",
+            16 | 17 => "str",
+            18 | 19 => "flipz",
+            _ => "flipb",
         };
         let big = c % 8 == 7;
         emit(gen_one(item, &mut rng, &focus, st, big));
@@ -1408,9 +1527,9 @@ fn gen(args: &Args, emit: &mut dyn FnMut(String), st: &mut Stats) {
     }
     // (3) out-of-domain stream: operations outside 0 <= l <= r < n (view `ood`: only the raw panic is compared with the
     //     model, as drift), empty constructors
-    for item in ["minadd", "aff", "sum"] {
-        let v = "1 2 3";
-        let m = if item == "aff" { "1 1" } else if item == "sum" { "u" } else { "1" };
+    for item in ["minadd", "aff", "sum", "flipz"] {
+        let v = if item == "flipz" { "1 0 1" } else { "1 2 3" };
+        let m = if item == "aff" { "1 1" } else if item == "sum" || item == "flipz" { "u" } else { "1" };
         emit(format!("{} slice 3 {} ; ask 2 1 ; ask 0 3 ; set 3 1 ; mod 2 1 {} ; mod 1 3 {} ; ask 0 2", item, v, m, m));
         emit(format!("{} new 0 1 ; ask 0 0", item));
         emit(format!("{} slice 0 ; ask 0 0", item));
